@@ -1,8 +1,6 @@
 """Clause texts shared by a theory and a sidecar (no solver imports: the run-time reading loads the sidecars too)."""
+# the function behind an object found by name: itself, or what a bound method / read-only property (its getter unwrapped) / django cached_property wraps
 _FN_OF = ("ite(okind(o) is OK_method, obj___func__(o), ite(okind(o) is OK_property, unwrapped_(obj_fget(o)),"
           " ite(DJANGO_CP is not None and okind(o) is OK_cached_property, obj_func(o), o)))")
-_BAD = ("(okind(o) is OK_property and (obj_fget(o) is None or obj_fset(o) is not None or obj_fdel(o) is not None))"
-        " or (okind(o) is not OK_method and okind(o) is not OK_property and not (DJANGO_CP is not None and okind(o) is OK_cached_property)"
-        " and okind(o) is not OK_function and okind(o) is not OK_builtin)")
-
-
+# a property that is not read-only, or whose getter cannot be unwrapped
+_BAD = ("(okind(o) is OK_property and (obj_fget(o) is None or obj_fset(o) is not None or obj_fdel(o) is not None or unwrap_loops(obj_fget(o))))")
